@@ -111,7 +111,7 @@ def window_frame_cases():
     from harness.c04.sqlite_ref import COLS
     out = []
     cols = [["t", F(c, 0)] for c in COLS]
-    total = [[F(c, 0), d] for c, d in zip(COLS, [None, "desc", "asc", None, "desc"])]
+    total = [[F(c, 0), [None, "desc", "asc"][n % 3]] for n, c in enumerate(COLS)]
     for mode, obs, part in (("rows", total, []), ("rows", total, [F("c", 0)]), ("range", [[F("a", 0), None]], []),
                             ("range", [[F("b", 0), "desc"]], [F("c", 0)])):
         for lo in EDGES:
@@ -366,10 +366,37 @@ def negative_cases():
     return [{"kind": "sq", "order": None, "spec": x} for x in out]
 
 
+def round6_cases():
+    """columns named like attributes of a Selectable (alias, star) reached through the subscript spelling table["col"] /
+    subquery["col"] (several seeds, so the spelling is taken); window functions whose PARTITION BY comes from two and
+    three chained over() calls and whose ORDER BY comes from several orderby() calls"""
+    sel = lambda **kw: dict({"k": "sel", "cls": "SQLLiteQuery", "joins": []}, **kw)
+    sub = sel(**{"from": [T("u")], "selects": [["t", F("alias", 0)], ["t", F("star", 0)], ["t", F("a", 0, "field")]]})
+    specs = [
+        sel(**{"from": [T("t")], "selects": [["t", F("id", 0)], ["t", F("alias", 0)], ["t", F("star", 0)]],
+               "where": ["t", ["basic", "gte", F("alias", 0), F("star", 0), None]], "orderby": [[["t", F("star", 0)], "desc"]]}),
+        sel(**{"from": [T("t", "x")], "joins": [["left", T("v"), ["on", ["t", ["basic", "eq", F("alias", 0), F("alias", 1), None]]]]],
+               "selects": [["t", F("star", 0)], ["t", F("star", 1, "s2")], ["t", ["func", "COUNT", [F("alias", 1)], None]]],
+               "groupby": [["t", F("star", 0)], ["t", F("star", 1, "s2")]]}),
+        sel(**{"from": [["q", sub]], "selects": [["t", F("alias", 0)], ["t", F("star", 0)], ["t", F("field", 0)]],
+               "where": ["t", ["notnull", F("alias", 0), None]]}),
+    ]
+    out = [{"kind": "sq", "order": 3000 + k, "spec": x} for x in specs for k in range(5)]
+    from harness.c04.sqlite_ref import COLS
+    total = [[F(c, 0), [None, "desc", "asc"][n % 3]] for n, c in enumerate(COLS)]
+    wins = [["t", ["win", "SUM", [F("b", 0)], part, obs, None, "w%d" % n]] for n, (part, obs) in enumerate([
+        ([F("a", 0), F("c", 0)], [[F("id", 0), None]]), ([F("c", 0), F("a", 0), F("id", 0)], [[F("b", 0), "desc"], [F("star", 0), None]]),
+        ([F("alias", 0), F("star", 0)], total), ([F("a", 0)], [[F("b", 0), None], [F("c", 0), "desc"], [F("id", 0), None]])])]
+    wins.append(["t", ["win", "RANK", [], [F("c", 0), F("a", 0)], [[F("b", 0), "desc"], [F("id", 0), None]], None, "rk"]])
+    out.append({"kind": "sq", "order": None,
+                "spec": sel(**{"from": [T("t")], "selects": [["t", F(c, 0)] for c in COLS] + wins})})
+    return out
+
+
 def corpus():
     sel = lambda **kw: dict({"k": "sel", "cls": "SQLLiteQuery", "joins": []}, **kw)
     cnt = ["func", "COUNT", [["star", None]], None]
-    return rejoin_cases() + negative_cases() + subquery_operand_cases() + brace_cases() + empty_in_cases() + correlated_cases() + window_frame_cases() + form_cases() + naming_cases() + not_cases() + [
+    return round6_cases() + rejoin_cases() + negative_cases() + subquery_operand_cases() + brace_cases() + empty_in_cases() + correlated_cases() + window_frame_cases() + form_cases() + naming_cases() + not_cases() + [
         # F1: GROUP BY replaced by the select alias "b", which SQLite binds to the column t.b
         {"kind": "sq", "order": None, "spec": sel(
             **{"from": [T("t")], "selects": [["t", ["arith", "add", F("a", 0), I(1), "b"]], ["t", cnt]],
